@@ -4,8 +4,8 @@ TIER=${1:-quick}
 cd "$(dirname "$0")/.."
 for ID in $(cat checks/ENABLED); do
   s=$(date +%s)
-  out=$(./run.sh $ID $TIER 2>&1 | grep -E "^$ID tier|VIOLATION|KNOWN-FINDING|HARNESS|VACUOUS|cap:" | cut -c1-220)
-  rc=${PIPESTATUS[0]}
-  echo "== $ID exit=$? wall=$(( $(date +%s) - s ))s"
+  ./run.sh $ID $TIER > .work/all-$ID.out 2>&1; rc=$?
+  out=$(grep -E "^$ID tier|VIOLATION|KNOWN-FINDING|HARNESS|VACUOUS|cap:" .work/all-$ID.out | cut -c1-220)
+  echo "== $ID exit=$rc wall=$(( $(date +%s) - s ))s"
   echo "$out" | head -8
 done
